@@ -160,3 +160,83 @@ def scan(repo, shorts: Optional[List[str]] = None):
                 for _line, sub in pairwise_fancy_index(m.node):
                     hits.append((f"{short}::{ci.name}.{m.name} [{sub}]", "pairwise-fancy-index", sub))
     return n, hits
+
+
+# --------------------------------------------------------------------------- axis roles of the partition's index collections
+ROW_COLLECTIONS = {"diff_row_idxs", "inserted_row_idxs", "derived_row_idxs", "_row_order_signed_indexes"}
+COL_COLLECTIONS = {"diff_column_idxs", "inserted_column_idxs", "derived_column_idxs", "_column_order_signed_indexes"}
+TUPLE_COLLECTIONS = {"diff_row_idxs", "inserted_row_idxs", "derived_row_idxs", "diff_column_idxs", "inserted_column_idxs", "derived_column_idxs"}
+
+
+def _unwrap_index(x: ast.AST) -> Tuple[ast.AST, bool]:
+    """-> (inner expression, converted) ; list(t) / np.array(t) / np.asarray(t) turn a tuple of indexes into an index ARRAY."""
+    conv = False
+    while isinstance(x, ast.Call) and u(x.func) in ("list", "np.array", "np.asarray", "tuple", "sorted") and len(x.args) >= 1:
+        if u(x.func) != "tuple":
+            conv = True
+        x = x.args[0]
+    return x, conv
+
+
+def axis_role_misuse(fn: ast.AST) -> List[Tuple[int, str, str]]:
+    """Subscripts of a 2-D partition method whose index collections stand on the wrong axis, or whose whole subscript is a
+    TUPLE of positions (numpy reads a tuple as one index per dimension).  -> [(line, kind, text)]"""
+    from .stmts import resolver
+
+    res = resolver(fn, multi=True)
+    out = []
+
+    def role(e):
+        roles = set()
+        tup = False
+        for v in res(e):
+            inner, conv = _unwrap_index(v)
+            if isinstance(inner, ast.Attribute) and isinstance(inner.value, ast.Name) and inner.value.id == "self":
+                if inner.attr in ROW_COLLECTIONS:
+                    roles.add("R")
+                if inner.attr in COL_COLLECTIONS:
+                    roles.add("C")
+                if inner.attr in TUPLE_COLLECTIONS and not conv:
+                    tup = True
+        return roles, tup
+
+    for n in ast.walk(fn):
+        if not isinstance(n, ast.Subscript):
+            continue
+        sl = n.slice
+        if isinstance(sl, ast.Tuple):
+            if len(sl.elts) != 2:
+                continue
+            for axis, part in enumerate(sl.elts):
+                roles, _t = role(part)
+                if roles == {"R"} and axis == 1:
+                    out.append((n.lineno, "axis", f"{u(n)[:80]}: a collection of ROW positions indexes axis 1"))
+                if roles == {"C"} and axis == 0:
+                    out.append((n.lineno, "axis", f"{u(n)[:80]}: a collection of COLUMN positions indexes axis 0"))
+        elif not isinstance(sl, ast.Slice):
+            roles, tup = role(sl)
+            if tup and roles:
+                out.append((n.lineno, "tuple", f"{u(n)[:80]}: a TUPLE of positions as the whole subscript is one index per dimension, not a selection along one axis"))
+    return out
+
+
+AXIS_CONTROL = '''
+def blank(self, matrix):
+    rows, cols = self.diff_row_idxs, self.diff_column_idxs
+    if rows:
+        matrix[rows] = np.nan
+    if cols:
+        matrix[cols, :] = np.nan
+    return matrix
+
+def ok(self, matrix, vector):
+    matrix[list(self.diff_row_idxs), :] = np.nan
+    matrix[:, self.diff_column_idxs] = np.nan
+    vector[list(self.diff_row_idxs)] = np.nan
+    return matrix[np.ix_(self._row_order_signed_indexes, self._column_order_signed_indexes)]
+'''
+
+
+def axis_self_check() -> Tuple[int, int]:
+    t = ast.parse(AXIS_CONTROL)
+    return len(axis_role_misuse(t.body[0])), len(axis_role_misuse(t.body[1]))
